@@ -24,6 +24,8 @@ META = {
     "theorems": [
         "QVerif.Seeds.schedule_independent",
         "QVerif.Seeds.schedules_agree",
+        "QVerif.Seeds.run_schedule_independent",
+        "QVerif.Seeds.runs_agree",
         "QVerif.Seeds.inv_exec",
         "QVerif.Seeds.subAt_unique",
         "QVerif.Seeds.shared_generator_depends_on_schedule",
@@ -34,14 +36,18 @@ META = {
     "loop that draws the mutation decision and the task's seed in submission order, worker actions that may run any pending task at any time (any number of workers, "
     "tasks running while the loop still submits) — yields, for EVERY schedule, the generator state and the individuals of the sequential reference "
     "(schedule_independent, schedules_agree), for an arbitrary generator and arbitrary task function; the variant whose tasks draw their seed from the shared generator "
-    "is schedule dependent even with one worker (shared_generator_depends_on_schedule, kernel-checked). NOT a theorem: that a whole solve is a function of seed and "
-    "configuration (in a functional model this is vacuous), independence of PYTHONHASHSEED (hash/dict-order behaviour of CPython), determinism of optimisers and "
+    "is schedule dependent even with one worker (shared_generator_depends_on_schedule, kernel-checked). Lifted to whole runs: a run is a sequence of applications of "
+    "operators that each own a generator (state kept from application to application) on the population handed from one to the next, every application under its own "
+    "arbitrary schedule; the final population and the final state of EVERY operator's generator are those of the sequential reference run (run_schedule_independent, "
+    "runs_agree). NOT a theorem: independence of PYTHONHASHSEED (hash/dict-order behaviour of CPython), determinism of optimisers and "
     "primitives — these are covered by differential runs of the real code only: repeated fresh solves, three single-worker schedules, sub-processes with different "
     "hash seeds, and all random constructors.",
     "level_note": "Trusted: Lean kernel + standard axioms; the model's claim about WHERE the code draws (all draws of the operator's generator in the submitting thread, "
     "seed passed as argument) is tied to mutation.py by the recorded draw log (kind, thread, which draw seeds which task) on every run; the order in which the solver "
-    "constructor seeds its operators is compared with Seeds.seedOrder.",
-    "rule": "cases = (a) mutation operators (topological search, layer removal, parameter search, last-layer search; probability in {0.3, 0.6, 1}) on populations of 2-7 "
+    "constructor seeds its operators is compared with Seeds.seedOrder; the whole-run model (generator state persisting across applications, population hand-over) is compared "
+    "with real operator objects applied repeatedly (seeds.run).",
+    "rule": "cases = (a') runs of 3-6 applications of three mutation operator objects (own logged generators) on an evolving population, each application on a stock / eager / "
+    "deferred one-worker executor: seed of every task per individual and draws consumed per operator vs Seeds.runRef; (a) mutation operators (topological search, layer removal, parameter search, last-layer search; probability in {0.3, 0.6, 1}) on populations of 2-7 "
     "individuals x 3 single-worker executors x 2 repetitions; (b) EVQE solves (2-3 qubits, population 3-5, 2-3 generations, COBYLA or SPSA (seeded by the library per task), exact "
     "fake primitives, tournament or roulette selection) x {repeat, eager, deferred} + sub-processes with PYTHONHASHSEED in {0, 1, 4242}; (c) random layer / individual / "
     "population / job-shop instance constructors x seeds, twice and across sub-processes. non-trivial = at least two tasks submitted (a), any solve (b); distinct = "
@@ -216,6 +222,84 @@ def mutation_case(ctx, rng):
         if not m.get("complete") or sorted(m.get("tasks", [])) != mod["tasks"] or m.get("draws") != mod["draws"]:
             ctx.disagree("seeds.mutation: the model's own schedule run is not the reference", inp, None, m)
         ctx.compare(f"seeds.mutation ({exname}): draws of the operator's generator and the seed of every task", inp, impl, mod)
+
+
+def run_of_applications_case(ctx, rng):
+    """a whole run at the operator level: the SAME operator objects (each with its own logged generator) applied several times in turn to
+    the evolving population, every application on a differently behaving one-worker executor; compared with Seeds.runRef: the seed every
+    task received (as a position in its operator's stream) per individual, and how far every operator's generator has advanced"""
+    import evqe_corr as E
+    from queasars.minimum_eigensolvers.base.evolutionary_algorithm import OperatorContext
+    from queasars.minimum_eigensolvers.evqe.evolutionary_algorithm import mutation as M
+    from queasars.minimum_eigensolvers.evqe.evolutionary_algorithm.individual import EVQEIndividual
+    from queasars.minimum_eigensolvers.evqe.evolutionary_algorithm.population import EVQEPopulation
+
+    drv = ctx.lean("Seeds")
+    probs = [rng.choice([0.3, 0.6, 1.0]) for _ in range(3)]
+    seeds = [rng.randrange(2**31) for _ in range(3)]
+    ops = [M.EVQETopologicalSearch(probs[0], seeds[0]), M.EVQEParameterSearch(probs[1], E.FakeOptimizer(), E.COST, seeds[1]), M.EVQELayerRemoval(probs[2], seeds[2])]
+    logs = []
+    for o, sd in zip(ops, seeds):
+        o.random_generator = LogRandom(sd)
+        logs.append(o.random_generator)
+    pop = E.gen_population(rng)
+    pop = EVQEPopulation(tuple(EVQEIndividual(x.n_qubits, x.layers, x.parameter_values) for x in pop.individuals), None, None, None)
+    n = len(pop.individuals)
+    seq = [rng.randrange(3) for _ in range(rng.randint(3, 6))]
+    exnames = [rng.choice(["stock", "eager", "deferred"]) for _ in seq]
+    inp = {"kind": "run_of_applications", "probs": probs, "seeds": seeds, "sequence": seq, "executors": exnames, "population": [repr(s_) for s_ in pop_struct(pop)]}
+    history = [[] for _ in range(n)]  # per index: (operator, position of the seed draw in that operator's stream)
+    apps = []
+    for k, exname in zip(seq, exnames):
+        op, lr = ops[k], logs[k]
+        start = len(lr.log)
+        ids = {}
+        for i, x in enumerate(pop.individuals):
+            ids.setdefault(id(x), []).append(i)
+        tasks = []
+        inner = op.mutation_function
+
+        def logged(individual, evaluator, optimizer, task_seed, inner=inner):
+            tasks.append((id(individual), task_seed))
+            return inner(individual, evaluator, optimizer, task_seed)
+
+        op.mutation_function = logged
+        ex = EXECUTORS[exname]()
+        try:
+            octx = OperatorContext(circuit_evaluator=E.FakeEvaluator(pop.individuals[0].n_qubits), result_callback=lambda r: None,
+                                   circuit_evaluation_count_callback=lambda c: None, parallel_executor=ex)
+            out = op.apply_operator(pop, octx)
+        finally:
+            ex.shutdown(wait=True)
+            op.mutation_function = inner
+        new = lr.log[start:]
+        decisions = [v <= probs[k] for kind, _, v in new if kind == "rand"]
+        pos = {v: start + p for p, (kind, _, v) in enumerate(new) if kind == "seed"}
+        for oid in {o for o, _ in tasks}:
+            mine = sorted((s_ for o, s_ in tasks if o == oid), key=lambda s_: pos.get(s_, 10**9))
+            for i, s_ in zip(ids.get(oid, []), mine):
+                history[i].append([k, pos.get(s_)])
+        if exname == "eager":
+            sched = []
+            for d in decisions:
+                sched.append("submit")
+                if d:
+                    sched.append(["run", 0])
+        else:
+            sched = ["submit"] * len(decisions) + [["run", 0]] * sum(decisions)
+        apps.append({"op": k, "decisions": decisions, "schedule": sched})
+        if any(w != "main" for _, w, _ in new):
+            ctx.violate("an operator's generator was used by a worker thread", inp, {"application": len(apps) - 1}, key="run:worker-draw")
+        # every position holds its own object again (an unmutated individual is handed on as the same object)
+        pop = EVQEPopulation(tuple(EVQEIndividual(x.n_qubits, x.layers, x.parameter_values) for x in out.individuals), None, None, None)
+    ctx.case(inp, nontrivial=sum(len(h) for h in history) >= 2, tags=["run-of-applications", f"applications:{len(seq)}"])
+    if drv is None:
+        return
+    m = drv.ask({"op": "seeds.run", "n_ops": 3, "n": n, "seq": apps})
+    if not m.get("schedule_run_equals_reference"):
+        ctx.disagree("seeds.run: the model's schedule run is not its reference run", inp, None, m)
+    ctx.compare("seeds.run: seed of every task per individual over the whole run, draws consumed per operator", inp,
+                {"pop": history, "gens": [len(lr.log) for lr in logs]}, {"pop": m.get("pop"), "gens": m.get("gens")})
 
 
 # ------------------------------------------------------------------------------------------------ (b) whole solves
@@ -483,6 +567,10 @@ def run(ctx):
         if ctx.out_of_time():
             break
         mutation_case(ctx, rng)
+    for _ in range(ctx.n(8, 150)):
+        if ctx.out_of_time():
+            break
+        run_of_applications_case(ctx, rng)
     hs = [0, 1, 4242] if ctx.thorough() else [0, 4242]
     constructors_case(ctx, rng, hs)
     history_case(ctx, rng, hs)
